@@ -1,5 +1,580 @@
 package main
 
-func cmdCheck(args []string) int { return 2 }
+import (
+	"encoding/json"
+	"flag"
+	"fmt"
+	"os"
+	"path/filepath"
+	"regexp"
+	"runtime"
+	"sort"
+	"strconv"
+	"strings"
+	"time"
+)
+
+// CheckSpec is the per-property entry of checks.json.
+type CheckSpec struct {
+	Level       string    `json:"level"`
+	Explanation string    `json:"explanation"`
+	Assumptions []string  `json:"assumptions"`
+	Jobs        []JobSpec `json:"jobs"`
+}
+
+type JobSpec struct {
+	Module       string   `json:"module"` // "v2", "root" or "both"
+	Pkg          string   `json:"pkg"`
+	Func         string   `json:"func"`
+	Quick        string   `json:"quick"`
+	Thorough     string   `json:"thorough"`
+	Twin         bool     `json:"twin"`   // vacuity witness: must produce a violation
+	Covers       []string `json:"covers"` // labels that must be reached
+	MaxPaths     int      `json:"max_paths"`
+	TimeoutS     int      `json:"timeout_s"`
+	Budget       int64    `json:"budget"`
+	Gen          bool     `json:"gen"` // needs generated bindings
+	BudgetIsHang bool     `json:"budget_is_hang"`
+}
+
+type KnownFinding struct {
+	ID          string `json:"id"`
+	Property    string `json:"property"`
+	Module      string `json:"module"`
+	Harness     string `json:"harness_regex"`
+	Msg         string `json:"msg_regex"`
+	Site        string `json:"site_regex"`
+	Description string `json:"description"`
+}
+
+type KnownFile struct {
+	Findings []KnownFinding `json:"findings"`
+	Fixed    []string       `json:"fixed"`
+}
+
+// expandArgs turns "0..3;1,2" into the cartesian product of argument vectors.
+func expandArgs(spec string) ([][]int, error) {
+	spec = strings.TrimSpace(spec)
+	if spec == "" {
+		return [][]int{{}}, nil
+	}
+	var dims [][]int
+	for _, d := range strings.Split(spec, ";") {
+		var vals []int
+		for _, part := range strings.Split(d, ",") {
+			part = strings.TrimSpace(part)
+			if strings.Contains(part, "..") {
+				ab := strings.SplitN(part, "..", 2)
+				a, err1 := strconv.Atoi(ab[0])
+				b, err2 := strconv.Atoi(ab[1])
+				if err1 != nil || err2 != nil {
+					return nil, fmt.Errorf("bad range %q", part)
+				}
+				for x := a; x <= b; x++ {
+					vals = append(vals, x)
+				}
+			} else {
+				x, err := strconv.Atoi(part)
+				if err != nil {
+					return nil, fmt.Errorf("bad value %q", part)
+				}
+				vals = append(vals, x)
+			}
+		}
+		dims = append(dims, vals)
+	}
+	out := [][]int{{}}
+	for _, d := range dims {
+		var next [][]int
+		for _, pre := range out {
+			for _, v := range d {
+				next = append(next, append(append([]int{}, pre...), v))
+			}
+		}
+		out = next
+	}
+	return out, nil
+}
+
+func cmdCheck(args []string) int {
+	if len(args) < 1 {
+		usage()
+	}
+	prop := args[0]
+	fs := flag.NewFlagSet("check", flag.ExitOnError)
+	tier := fs.String("tier", "", "quick or thorough")
+	workers := fs.Int("workers", runtime.NumCPU(), "workers")
+	only := fs.String("only", "", "regex: run only matching harness functions (no evidence written)")
+	solverKind := fs.String("solver", "z3", "solver")
+	verbose := fs.Bool("v", false, "verbose")
+	fs.Parse(args[1:])
+	if *tier == "" {
+		*tier = os.Getenv("VERIF_TIER")
+	}
+	if *tier == "" {
+		*tier = "quick"
+	}
+	seed := 0
+	if s := os.Getenv("VERIF_SEED"); s != "" {
+		seed, _ = strconv.Atoi(s)
+	}
+	t0 := time.Now()
+
+	var specs map[string]CheckSpec
+	b, err := os.ReadFile(filepath.Join(verifDir(), "checks.json"))
+	if err != nil {
+		fmt.Fprintln(os.Stderr, err)
+		return 2
+	}
+	if err := json.Unmarshal(b, &specs); err != nil {
+		fmt.Fprintln(os.Stderr, "checks.json:", err)
+		return 2
+	}
+	spec, ok := specs[prop]
+	if !ok {
+		fmt.Fprintf(os.Stderr, "no check for %s\n", prop)
+		return 2
+	}
+	var known KnownFile
+	if kb, err := os.ReadFile(filepath.Join(verifDir(), "known_findings.json")); err == nil {
+		if err := json.Unmarshal(kb, &known); err != nil {
+			fmt.Fprintln(os.Stderr, "known_findings.json:", err)
+			return 2
+		}
+	}
+	var onlyRe *regexp.Regexp
+	if *only != "" {
+		onlyRe = regexp.MustCompile(*only)
+	}
+
+	scratch, err := os.MkdirTemp("", "gosym-"+prop+"-")
+	if err != nil {
+		fmt.Fprintln(os.Stderr, err)
+		return 2
+	}
+	defer func() {
+		exec_chmod(scratch)
+		os.RemoveAll(scratch)
+	}()
+
+	// expand module "both"
+	var jobs []JobSpec
+	for _, j := range spec.Jobs {
+		if onlyRe != nil && !onlyRe.MatchString(j.Func) {
+			continue
+		}
+		if j.Module == "both" {
+			a, b := j, j
+			a.Module, b.Module = "v2", "root"
+			jobs = append(jobs, a, b)
+		} else {
+			jobs = append(jobs, j)
+		}
+	}
+	loaded := map[string]*Loaded{}
+	needGen := map[string]bool{}
+	for _, j := range jobs {
+		if j.Gen {
+			needGen[j.Module] = true
+		}
+	}
+	broken := false
+	var results []*JobResult
+	var allFindings []*Finding
+	replayDir := filepath.Join(verifDir(), "replays", prop)
+	os.RemoveAll(replayDir)
+	tracesValidated := 0
+	var discrepancies []string
+	var vacuous []string
+	var inconclusive []string
+	var loadSeconds float64
+
+	for _, js := range jobs {
+		l := loaded[js.Module]
+		if l == nil {
+			var extra map[string]string
+			if needGen[js.Module] {
+				extra, err = generateBindings(js.Module, scratch)
+				if err != nil {
+					fmt.Printf("BROKEN: bindings do not generate/compile for module %s: %v\n", js.Module, err)
+					return 2
+				}
+			}
+			l, err = loadModule(js.Module, scratch, extra, nil)
+			if err != nil {
+				fmt.Printf("BROKEN: cannot load module %s with harness overlay: %v\n", js.Module, err)
+				return 2
+			}
+			loaded[js.Module] = l
+			loadSeconds += l.LoadTime.Seconds()
+		}
+		argSpec := js.Quick
+		if *tier == "thorough" && js.Thorough != "" {
+			argSpec = js.Thorough
+		}
+		vectors, err := expandArgs(argSpec)
+		if err != nil {
+			fmt.Fprintln(os.Stderr, err)
+			return 2
+		}
+		coverSeen := map[string]int{}
+		twinViolations := 0
+		for _, vec := range vectors {
+			job := &Job{Loaded: l, Pkg: l.ModulePath + "/" + js.Pkg, Func: js.Func, Args: vec, Budget: js.Budget, MaxPaths: js.MaxPaths}
+			if js.TimeoutS > 0 {
+				job.Timeout = time.Duration(js.TimeoutS) * time.Second
+			}
+			if js.Twin {
+				job.Expect = "violation"
+			}
+			res := explore(job, *workers, *solverKind)
+			results = append(results, res)
+			if *verbose {
+				printJobResult(res, false)
+			} else {
+				fmt.Printf("%s: paths=%d %v solver-queries=%d cache=%d/%d wall=%.1fs exhausted=%v %s\n", job.Name(), res.Paths, res.ByOutcome, res.Queries, cacheHits, cacheMisses, res.Wall.Seconds(), res.Exhausted, res.Capped)
+			}
+			for k, v := range res.Covers {
+				coverSeen[k] += v
+			}
+			if len(res.EngineErrors) > 0 {
+				broken = true
+				for _, e := range res.EngineErrors {
+					fmt.Printf("ENGINE-ERROR %s: %s\n", job.Name(), trunc(e, 6000))
+				}
+			}
+			if res.Capped != "" || res.Unknown > 0 {
+				inconclusive = append(inconclusive, fmt.Sprintf("%s: %s unknown=%d", job.Name(), res.Capped, res.Unknown))
+			}
+			if js.Twin {
+				twinViolations += len(res.Findings)
+				res.Findings = nil
+			}
+			allFindings = append(allFindings, res.Findings...)
+		}
+		if js.Twin && twinViolations == 0 {
+			vacuous = append(vacuous, fmt.Sprintf("%s:%s.%s: reachability twin produced no violation", js.Module, js.Pkg, js.Func))
+		}
+		for _, c := range js.Covers {
+			if coverSeen[c] == 0 {
+				vacuous = append(vacuous, fmt.Sprintf("%s:%s.%s: cover point %q never reached", js.Module, js.Pkg, js.Func, c))
+			}
+		}
+	}
+
+	// ---- differential validation of the engine on a sample of explored inputs
+	type batchKey struct{ module, pkg string }
+	batches := map[batchKey][]TapeSpec{}
+	expected := map[string][2]string{}
+	nTapes := 0
+	perJobCap := 40
+	if *tier == "thorough" {
+		perJobCap = 120
+	}
+	for _, res := range results {
+		if res.Job.Expect != "" {
+			continue
+		}
+		n := 0
+		step := 1
+		if len(res.Tapes) > perJobCap {
+			step = len(res.Tapes) / perJobCap
+		}
+		for k := (seed % step); k < len(res.Tapes) && n < perJobCap; k += step {
+			p := filepath.Join(scratch, "tapes", fmt.Sprintf("t%06d.json", nTapes))
+			nTapes++
+			ts := TapeSpec{Harness: res.Job.Func, Args: res.Job.Args, Tape: res.Tapes[k], Path: p}
+			if err := writeTape(p, ts); err != nil {
+				fmt.Fprintln(os.Stderr, err)
+				return 2
+			}
+			bk := batchKey{res.Job.Loaded.Module, res.Job.Pkg}
+			batches[bk] = append(batches[bk], ts)
+			expected[p] = [2]string{res.TapeOutcomes[k], res.TapeObserved[k]}
+			n++
+		}
+	}
+	// ---- findings: dedupe by signature, write tapes, replay
+	sigCount := map[string]int{}
+	var reported []*Finding
+	for _, f := range allFindings {
+		sig := f.Job.Loaded.Module + "|" + f.Job.Func + "|" + f.Outcome + "|" + normMsg(f.Msg) + "|" + f.PanicSite
+		sigCount[sig]++
+		if sigCount[sig] > 2 {
+			continue
+		}
+		name := fmt.Sprintf("%s-%s-%s-%d.json", f.Job.Loaded.Module, f.Job.Func, argTag(f.Job.Args), len(reported))
+		f.TapePath = filepath.Join(replayDir, name)
+		ts := TapeSpec{Harness: f.Job.Func, Args: f.Job.Args, Tape: f.Inputs, Path: f.TapePath}
+		if err := writeTape(f.TapePath, ts); err != nil {
+			fmt.Fprintln(os.Stderr, err)
+			return 2
+		}
+		bk := batchKey{f.Job.Loaded.Module, f.Job.Pkg}
+		batches[bk] = append(batches[bk], ts)
+		reported = append(reported, f)
+	}
+	native := map[string]NativeResult{}
+	var bks []batchKey
+	for bk := range batches {
+		bks = append(bks, bk)
+	}
+	sort.Slice(bks, func(a, b int) bool { return bks[a].module+bks[a].pkg < bks[b].module+bks[b].pkg })
+	for _, bk := range bks {
+		res, out, err := nativeReplay(loaded[bk.module], bk.pkg, batches[bk], scratch)
+		if err != nil {
+			fmt.Printf("BROKEN: native replay failed for %s %s: %v\n", bk.module, bk.pkg, err)
+			broken = true
+			continue
+		}
+		_ = out
+		for k, v := range res {
+			native[k] = v
+		}
+	}
+	for p, exp := range expected {
+		nr, ok := native[p]
+		if !ok {
+			continue
+		}
+		tracesValidated++
+		if !sameOutcome(exp[0], nr.Outcome) || exp[1] != nr.Observed {
+			discrepancies = append(discrepancies, fmt.Sprintf("tape %s: engine %s [%s] vs native %s [%s] %s", tapeString(p), exp[0], exp[1], nr.Outcome, nr.Observed, trunc(nr.Msg, 200)))
+		}
+	}
+	violations := 0
+	knownSeen := map[string]string{}
+	for _, f := range reported {
+		nr, ok := native[f.TapePath]
+		if !ok {
+			discrepancies = append(discrepancies, "no native result for "+f.TapePath)
+			continue
+		}
+		f.Replayed, f.ReplayMsg = nr.Outcome, nr.Msg
+		if !sameOutcome(f.Outcome, nr.Outcome) {
+			discrepancies = append(discrepancies, fmt.Sprintf("finding not reproduced natively: %s engine=%s (%s) native=%s (%s) tape=%s", f.Job.Name(), f.Outcome, trunc(f.Msg, 200), nr.Outcome, trunc(nr.Msg, 200), f.TapePath))
+			continue
+		}
+		if kf := matchKnown(known.Findings, prop, f); kf != nil {
+			f.Known = kf.ID
+			if _, seen := knownSeen[kf.ID]; !seen {
+				knownSeen[kf.ID] = fmt.Sprintf("%s (e.g. %s inputs=%v)", kf.Description, f.Job.Name(), renderInputs(f.Inputs, f.Labels))
+			}
+			continue
+		}
+		violations++
+		fmt.Printf("VIOLATION property=%s replay=%s\n", prop, f.TapePath)
+		fmt.Printf("  harness=%s outcome=%s msg=%s site=%s inputs=%v native=%s\n", f.Job.Name(), f.Outcome, trunc(f.Msg, 300), f.PanicSite, renderInputs(f.Inputs, f.Labels), trunc(nr.Msg, 200))
+	}
+	var kids []string
+	for id := range knownSeen {
+		kids = append(kids, id)
+	}
+	sort.Strings(kids)
+	for _, id := range kids {
+		fmt.Printf("KNOWN-FINDING: property=%s %s %s\n", prop, id, knownSeen[id])
+	}
+	for _, d := range discrepancies {
+		fmt.Printf("ENGINE-DISCREPANCY: %s\n", d)
+		broken = true
+	}
+	for _, v := range vacuous {
+		fmt.Printf("VACUOUS: %s\n", v)
+		broken = true
+	}
+	for _, s := range inconclusive {
+		fmt.Printf("INCONCLUSIVE: %s\n", s)
+	}
+
+	if onlyRe == nil {
+		if err := writeEvidence(prop, *tier, seed, spec, results, reported, tracesValidated, violations, knownSeen, inconclusive, loadSeconds, time.Since(t0)); err != nil {
+			fmt.Fprintln(os.Stderr, "evidence:", err)
+			return 2
+		}
+	}
+	fmt.Printf("%s %s: jobs=%d violations=%d known=%d traces-validated=%d wall=%.0fs\n", prop, *tier, len(results), violations, len(knownSeen), tracesValidated, time.Since(t0).Seconds())
+	if violations > 0 {
+		return 1
+	}
+	if broken {
+		return 2
+	}
+	return 0
+}
+
+func exec_chmod(dir string) {
+	filepath.Walk(dir, func(p string, info os.FileInfo, err error) error {
+		if err == nil {
+			os.Chmod(p, info.Mode()|0o200)
+		}
+		return nil
+	})
+}
+
+func tapeString(p string) string {
+	b, err := os.ReadFile(p)
+	if err != nil {
+		return p
+	}
+	return trunc(string(b), 300)
+}
+
+func argTag(a []int) string {
+	var s []string
+	for _, x := range a {
+		s = append(s, strconv.Itoa(x))
+	}
+	return strings.Join(s, "_")
+}
+
+var numRe = regexp.MustCompile(`[0-9]+`)
+
+func normMsg(m string) string { return numRe.ReplaceAllString(trunc(m, 120), "N") }
+
+func sameOutcome(engine, native string) bool {
+	if engine == native {
+		return true
+	}
+	if engine == "budget" && native == "hang" {
+		return true
+	}
+	return false
+}
+
+func matchKnown(kfs []KnownFinding, prop string, f *Finding) *KnownFinding {
+	for k := range kfs {
+		kf := &kfs[k]
+		if kf.Property != prop {
+			continue
+		}
+		if kf.Module != "" && kf.Module != f.Job.Loaded.Module {
+			continue
+		}
+		if kf.Harness != "" && !regexp.MustCompile(kf.Harness).MatchString(f.Job.Func) {
+			continue
+		}
+		if kf.Msg != "" && !regexp.MustCompile(kf.Msg).MatchString(f.Msg) {
+			continue
+		}
+		if kf.Site != "" && !regexp.MustCompile(kf.Site).MatchString(f.PanicSite) {
+			continue
+		}
+		return kf
+	}
+	return nil
+}
+
+func writeEvidence(prop, tier string, seed int, spec CheckSpec, results []*JobResult, reported []*Finding, validated, violations int, known map[string]string, inconclusive []string, loadSeconds float64, wall time.Duration) error {
+	states, transitions := 0, 0
+	var queries, sat, unsat, unknown int
+	var solverSec float64
+	funcs := map[string]int{}
+	exts := map[string]int{}
+	var bounds []map[string]interface{}
+	var samples []interface{}
+	exhaustive := true
+	covers := map[string]int{}
+	for _, r := range results {
+		states += r.Paths
+		transitions += r.Decisions
+		queries += r.Queries
+		sat += r.Sat
+		unsat += r.Unsat
+		unknown += r.Unknown
+		solverSec += r.SolverTime.Seconds()
+		for k, v := range r.Calls {
+			if strings.Contains(k, "PapaCharlie/go-restli") && !strings.Contains(k, "zzverif") {
+				funcs[k] += v
+			}
+		}
+		for k, v := range r.Externals {
+			exts[k] += v
+		}
+		for k, v := range r.Covers {
+			covers[k] += v
+		}
+		if !r.Exhausted {
+			exhaustive = false
+		}
+		bounds = append(bounds, map[string]interface{}{
+			"harness": r.Job.Name(), "paths": r.Paths, "outcomes": r.ByOutcome, "decisions": r.Decisions,
+			"solver_queries": r.Queries, "exhausted": r.Exhausted, "capped": r.Capped, "wall_s": round1(r.Wall.Seconds()),
+			"recovered_panics": r.Recovered,
+		})
+		for k, s := range r.Samples {
+			if k < 3 {
+				s["harness"] = r.Job.Name()
+				samples = append(samples, s)
+			}
+		}
+	}
+	if len(samples) > 60 {
+		samples = samples[:60]
+	}
+	var fnames []string
+	for k := range funcs {
+		fnames = append(fnames, k)
+	}
+	sort.Strings(fnames)
+	var enames []string
+	for k := range exts {
+		enames = append(enames, k)
+	}
+	sort.Strings(enames)
+	var kn []string
+	for id, d := range known {
+		kn = append(kn, id+": "+d)
+	}
+	sort.Strings(kn)
+	var viol []map[string]interface{}
+	for _, f := range reported {
+		viol = append(viol, map[string]interface{}{"harness": f.Job.Name(), "outcome": f.Outcome, "msg": trunc(f.Msg, 300), "site": f.PanicSite,
+			"inputs": renderInputs(f.Inputs, f.Labels), "native": f.Replayed, "known": f.Known, "tape": f.TapePath})
+	}
+	level := spec.Level
+	if level == "" {
+		level = "model_checking"
+	}
+	cov := map[string]interface{}{
+		"states":                        states,
+		"transitions":                   transitions,
+		"traces_validated_against_impl": validated,
+		"samples":                       samples,
+		"evaluations":                   states,
+		"distinct_nontrivial":           states,
+		"rule":                          "one evaluation = one feasible path of the harness through the real SSA (a distinct path condition over the symbolic inputs); paths are enumerated by negating every recorded decision and asking the solver for inputs, so distinct paths have pairwise inconsistent path conditions; every path executes repository code, none is trivial",
+		"explanation":                   spec.Explanation,
+		"exhaustive":                    exhaustive,
+		"functions_encoded":             fnames,
+		"engine_intrinsics_used":        enames,
+		"bounds":                        bounds,
+		"solver":                        map[string]interface{}{"name": "z3 4.8.12 (z3 -in, one process per worker)", "queries_sent": queries, "sat": sat, "unsat": unsat, "unknown": unknown, "cache_hits": cacheHits, "syntactic_unsat": trivialUnsat, "solver_seconds": round1(solverSec)},
+		"cover_points":                  covers,
+		"findings":                      viol,
+		"known_findings_reproduced":     kn,
+		"inconclusive":                  inconclusive,
+		"ssa_rebuilt_from":              repoDir(),
+		"load_seconds":                  round1(loadSeconds),
+	}
+	ev := map[string]interface{}{
+		"property_id": prop,
+		"tier":        tier,
+		"seed":        seed,
+		"level":       level,
+		"coverage":    cov,
+		"assumptions": spec.Assumptions,
+		"wall_s":      round1(wall.Seconds()),
+		"violations":  violations,
+	}
+	b, err := json.MarshalIndent(ev, "", " ")
+	if err != nil {
+		return err
+	}
+	dir := filepath.Join(verifDir(), "evidence")
+	os.MkdirAll(dir, 0o755)
+	return os.WriteFile(filepath.Join(dir, prop+".json"), b, 0o644)
+}
+
+func round1(f float64) float64 { return float64(int(f*10+0.5)) / 10 }
 
 func generateBindings(module, scratch string) (map[string]string, error) { return nil, nil }
